@@ -56,7 +56,8 @@ def strategy(draw, tier='quick'):
             extra.append({'kind': 'time', 'at': o['hyd'] * draw(st.integers(0, max(1, o['duration'] // o['hyd']))),
                           'link': v['name'], 'attr': 'setting', 'value': val})
     for p in sp['pumps']:
-        if draw(st.integers(0, 7)) == 0:
+        # (a speed other than 1.0 on a head pump makes the WNTRSimulator raise NotImplementedError)
+        if p['type'] == 'POWER' and draw(st.integers(0, 7)) == 0:
             extra.append({'kind': 'time', 'at': o['hyd'] * draw(st.integers(0, max(1, o['duration'] // o['hyd']))),
                           'link': p['name'], 'attr': 'base_speed', 'value': draw(st.sampled_from([0.8, 0.9, 1.1]))})
     sp['controls'] = sp['controls'] + extra
